@@ -139,7 +139,8 @@ T* Cabinet<T>::free(const Token &token)
 template <typename T>
 void Cabinet<T>::clear()
 {
-    last_id_ = 0;
+    //! last_id_ is kept: ids handed out before clear() must not be issued again,
+    //! otherwise an old Token would resolve to an entry allocated afterwards
     cells_.clear();
     first_free_ = std::numeric_limits<Pos>::max();
     count_ = 0;
